@@ -122,6 +122,12 @@ CHECKS = {
         text="Member rows are compared with the central directory of archives the harness wrote (exactly once, size/is_dir/mode/modified, WHERE, ORDER BY), ordinary rows with the same query without `archives`; every truncation point and 3 bit patterns on every central-directory byte of a small archive are searched next to an intact one; read/lseek/openat errors are injected on one archive; searches run under a pinned clock at month ends and leap days.",
         note="Trusted: Python zipfile as the reference writer/reader; strace -e inject; the fake-clock shim (fsv/native/fakeclock.c).",
         ref="DESIGN.md section 3 / C19"),
+    "C17": dict(
+        level="fault_enumeration",
+        technique="runtime monitoring under injected faults: real EACCES as an unprivileged user, strace -e inject on every directory syscall of a traced run, EPIPE on every stdout write index, real pipe closures; err hook conservation",
+        text="Every single directory (and sampled pairs) is made unlistable and searched as uid 65534; every getdents64 / openat(O_DIRECTORY) call and the readlink / statx / newfstatat / openat(file) / read calls of a traced fault-free run fail once with several errnos; every write(2) index to stdout fails with EPIPE for 6 formats x 4 result paths; real 4 KiB pipes are closed after k bytes. Rows outside the fault, diagnostics, status and the error counter (hook) are judged.",
+        note="Trusted: strace 6.1 fault injection semantics; setpriv for the unprivileged child; rows inside a failing directory may be any subset.",
+        ref="DESIGN.md section 3 / C17"),
 }
 
 NOT_APPLICABLE = {}
